@@ -1579,3 +1579,221 @@ Qed.
 Lemma lazy_family_projection ttls n now0 ops f : (f < n)%nat ->
   lobs_on f ops (snd (mlrun ttls (mlinit n now0) ops)) = snd (lrun (ttls f) (linit now0) (lproj f ops)).
 Proof. intros H. apply lazy_family_projection_gen. cbn. apply nth_error_repeat; auto. Qed.
+
+(* ================================================================== values are opaque payloads *)
+Section Relabel.
+  Variable rho : Z -> Z.                 (* any relabelling of the values bodies return *)
+
+  Definition rl_body (b : body) : body := match b with BRet v => BRet (rho v) | BRaise e => BRaise e end.
+  Definition rl_res (r : res) : res :=
+    match r with
+    | RHit v => RHit (rho v) | RMiss v => RMiss (rho v) | RDone v => RDone (rho v)
+    | r => r
+    end.
+
+  Section Keyed.
+    Variable K : Type.
+    Variable keqb : K -> K -> bool.
+    Variable kf : call -> option K.
+    Variable valid : call -> bool.
+
+    Definition rl_entry (e : entry K) : entry K := (ekey K e, rho (eval K e), estamp K e).
+    Definition rl_infl (x : Z * K * body) : Z * K * body := (fst (fst x), snd (fst x), rl_body (snd x)).
+    Definition rl_aop (o : aop) : aop :=
+      match o with ACall id c bl b => ACall id c bl (rl_body b) | AFinish id => AFinish id end.
+    Definition rl_astate (st : astate K) : astate K :=
+      mkA (map rl_entry (store st)) (map rl_infl (infl st)) (tick st) (runs st).
+
+    Lemma rl_find l k : lru_find K keqb (map rl_entry l) k = option_map rho (lru_find K keqb l k).
+    Proof.
+      induction l as [|[[k' v] t] l IH]; cbn; auto.
+      unfold ekey, eval; cbn. destruct (keqb k' k); auto.
+    Qed.
+    Lemma rl_remove l k : lru_remove K keqb (map rl_entry l) k = map rl_entry (lru_remove K keqb l k).
+    Proof.
+      induction l as [|[[k' v] t] l IH]; cbn; auto.
+      unfold ekey; cbn. destruct (keqb k' k); cbn; auto. now rewrite IH.
+    Qed.
+    Lemma rl_touch l k v t :
+      lru_touch K keqb (map rl_entry l) k (rho v) t = map rl_entry (lru_touch K keqb l k v t).
+    Proof. unfold lru_touch. now rewrite rl_remove, map_app. Qed.
+    Lemma rl_setitem cap l k v t :
+      lru_setitem K keqb cap (map rl_entry l) k (rho v) t = map rl_entry (lru_setitem K keqb cap l k v t).
+    Proof.
+      unfold lru_setitem. rewrite rl_find. destruct (lru_find K keqb l k); cbn [option_map].
+      - apply rl_touch.
+      - rewrite map_length, map_app. destruct (length l =? cap)%nat; auto.
+        destruct l; auto.
+    Qed.
+    Lemma rl_infl_find l id :
+      infl_find K (map rl_infl l) id = option_map (fun kb => (fst kb, rl_body (snd kb))) (infl_find K l id).
+    Proof. induction l as [|[[i k] b] l IH]; cbn; auto. destruct (i =? id); auto. Qed.
+    Lemma rl_infl_remove l id : infl_remove K (map rl_infl l) id = map rl_infl (infl_remove K l id).
+    Proof. induction l as [|[[i k] b] l IH]; cbn; auto. destruct (i =? id); cbn; auto. now rewrite IH. Qed.
+
+    (* relabelling the values commutes with every step of the alru_cache wrapper: whether a call is a hit or a
+       miss, what is evicted, which bodies run never depends on the value a body returned *)
+    Lemma astep_relabel cap st o :
+      astep K keqb kf valid cap (rl_astate st) (rl_aop o) =
+      (rl_astate (fst (astep K keqb kf valid cap st o)), rl_res (snd (astep K keqb kf valid cap st o))).
+    Proof.
+      destruct st as [l inf t rs]. destruct o as [id c bl b|id]; cbn [astep rl_aop rl_astate store infl tick runs].
+      - destruct (kf c) as [k|]; [|reflexivity].
+        unfold lru_getitem. rewrite rl_find. destruct (lru_find K keqb l k) as [v|] eqn:Ef; cbn [option_map].
+        + cbn. unfold rl_astate. cbn. now rewrite rl_touch.
+        + destruct (negb (valid c)); [reflexivity|].
+          destruct bl.
+          * cbn. unfold rl_astate. cbn. now rewrite map_app.
+          * destruct b as [v|e]; cbn; unfold rl_astate; cbn; auto. now rewrite rl_setitem.
+      - rewrite rl_infl_find. destruct (infl_find K inf id) as [[k [v|e]]|]; cbn; unfold rl_astate; cbn; auto.
+        + now rewrite rl_setitem, rl_infl_remove.
+        + now rewrite rl_infl_remove.
+    Qed.
+
+    Definition rl_obs (x : res * Z) : res * Z := (rl_res (fst x), snd x).
+
+    Lemma arun_relabel cap ops : forall st,
+      arun K keqb kf valid cap (rl_astate st) (map rl_aop ops) =
+      (rl_astate (fst (arun K keqb kf valid cap st ops)), map rl_obs (snd (arun K keqb kf valid cap st ops))).
+    Proof.
+      induction ops as [|o ops IH]; intros st; cbn [map arun]; auto.
+      rewrite astep_relabel. destruct (astep K keqb kf valid cap st o) as [s1 r]. cbn [fst snd].
+      rewrite IH. destruct (arun K keqb kf valid cap s1 ops) as [s2 rs]. cbn [fst snd map].
+      unfold rl_obs at 2. cbn [fst snd]. unfold rl_astate at 2. cbn [store]. now rewrite map_length.
+    Qed.
+
+    (* for every history: the same history with relabelled body results yields the relabelled results, the same
+       cache sizes and the same body-run log *)
+    Lemma values_opaque cap ops :
+      snd (arun K keqb kf valid cap ainit (map rl_aop ops)) = map rl_obs (snd (arun K keqb kf valid cap ainit ops)) /\
+      runs (fst (arun K keqb kf valid cap ainit (map rl_aop ops))) = runs (fst (arun K keqb kf valid cap ainit ops)).
+    Proof.
+      change (@ainit K) with (rl_astate ainit). rewrite arun_relabel. cbn. auto.
+    Qed.
+  End Keyed.
+
+  (* alazy_constant *)
+  Definition rl_lop (o : lop) : lop := match o with LCall id bl b => LCall id bl (rl_body b) | o => o end.
+  Definition rl_lstate (st : lstate) : lstate :=
+    mkL (refresh st) (option_map rho (cached st)) (now st) (map (fun x => (fst x, rl_body (snd x))) (linfl st)) (lruns st).
+
+  Lemma rl_linfl_find l id :
+    linfl_find (map (fun x => (fst x, rl_body (snd x))) l) id = option_map rl_body (linfl_find l id).
+  Proof. induction l as [|[i b] l IH]; cbn; auto. destruct (i =? id); auto. Qed.
+  Lemma rl_linfl_remove l id :
+    linfl_remove (map (fun x => (fst x, rl_body (snd x))) l) id = map (fun x => (fst x, rl_body (snd x))) (linfl_remove l id).
+  Proof. induction l as [|[i b] l IH]; cbn; auto. destruct (i =? id); cbn; auto. now rewrite IH. Qed.
+
+  Lemma lstep_relabel ttl st o :
+    lstep ttl (rl_lstate st) (rl_lop o) = (rl_lstate (fst (lstep ttl st o)), rl_res (snd (lstep ttl st o))).
+  Proof.
+    destruct st as [rf ca nw inf rs]. destruct o as [id bl b|id| |dt]; cbn [lstep rl_lop].
+    - unfold needs_refresh. cbn [refresh now rl_lstate].
+      destruct ((rf =? 0) || negb (ttl =? 0) && (rf <? nw - ttl)).
+      + destruct bl; cbn; unfold rl_lstate; cbn; [now rewrite map_app|].
+        destruct b; cbn; auto.
+      + cbn. destruct ca; reflexivity.
+    - cbn [rl_lstate linfl]. rewrite rl_linfl_find. destruct (linfl_find inf id) as [[v|e]|]; cbn; unfold rl_lstate; cbn; auto;
+        now rewrite rl_linfl_remove.
+    - reflexivity.
+    - reflexivity.
+  Qed.
+End Relabel.
+
+(* ---- acached_per_instance *)
+Section RelabelInst.
+  Variable rho : Z -> Z.
+  Variable K : Type.
+  Variable keqb : K -> K -> bool.
+  Variable kf : call -> option K.
+  Variable valid : call -> bool.
+
+  Definition rl_dict (d : idict K) : idict K := map (fun kv => (fst kv, rho (snd kv))) d.
+  Definition rl_pstore (l : list (Z * idict K)) : list (Z * idict K) := map (fun x => (fst x, rl_dict (snd x))) l.
+  Definition rl_pinfl (x : Z * Z * K * body) : Z * Z * K * body :=
+    (fst (fst (fst x)), snd (fst (fst x)), snd (fst x), rl_body rho (snd x)).
+  Definition rl_pop (o : pop) : pop :=
+    match o with PCall id i c bl b => PCall id i c bl (rl_body rho b) | o => o end.
+  Definition rl_pstate (st : pstate K) : pstate K :=
+    mkP (rl_pstore (pstore st)) (map rl_pinfl (pinfl st)) (pruns st).
+
+  Lemma rl_d_find d k : d_find K keqb (rl_dict d) k = option_map rho (d_find K keqb d k).
+  Proof. induction d as [|[k' v] d IH]; cbn; auto. destruct (keqb k' k); auto. Qed.
+  Lemma rl_d_set d k v : d_set K keqb (rl_dict d) k (rho v) = rl_dict (d_set K keqb d k v).
+  Proof. unfold rl_dict. induction d as [|[k' v'] d IH]; cbn; auto. destruct (keqb k' k); cbn; auto. now rewrite IH. Qed.
+  Lemma rl_p_find l i : p_find K (rl_pstore l) i = option_map rl_dict (p_find K l i).
+  Proof. induction l as [|[j d] l IH]; cbn; auto. destruct (j =? i); auto. Qed.
+  Lemma rl_p_set l i d : p_set K (rl_pstore l) i (rl_dict d) = rl_pstore (p_set K l i d).
+  Proof. unfold rl_pstore. induction l as [|[j d'] l IH]; cbn; auto. destruct (j =? i); cbn; auto. now rewrite IH. Qed.
+  Lemma rl_p_remove l i : p_remove K (rl_pstore l) i = rl_pstore (p_remove K l i).
+  Proof. unfold rl_pstore. induction l as [|[j d'] l IH]; cbn; auto. destruct (j =? i); cbn; auto. now rewrite IH. Qed.
+  Lemma rl_p_ensure l i : p_ensure K (rl_pstore l) i = rl_pstore (p_ensure K l i).
+  Proof.
+    unfold p_ensure. rewrite rl_p_find. destruct (p_find K l i); cbn; auto.
+    unfold rl_pstore. now rewrite map_app.
+  Qed.
+  Lemma rl_p_dict l i : p_dict K (rl_pstore l) i = rl_dict (p_dict K l i).
+  Proof. unfold p_dict. rewrite rl_p_find. destruct (p_find K l i); auto. Qed.
+  Lemma rl_p_store l i k v : p_store K keqb (rl_pstore l) i k (rho v) = rl_pstore (p_store K keqb l i k v).
+  Proof.
+    unfold p_store. rewrite rl_p_find. destruct (p_find K l i); cbn; auto.
+    now rewrite rl_d_set, rl_p_set.
+  Qed.
+  Lemma rl_pinfl_find l id i :
+    pinfl_find K (map rl_pinfl l) id i = option_map (fun kb => (fst kb, rl_body rho (snd kb))) (pinfl_find K l id i).
+  Proof. induction l as [|[[[a j] k] b] l IH]; cbn; auto. destruct ((a =? id) && (j =? i)); auto. Qed.
+  Lemma rl_pinfl_remove l id i : pinfl_remove K (map rl_pinfl l) id i = map rl_pinfl (pinfl_remove K l id i).
+  Proof. induction l as [|[[[a j] k] b] l IH]; cbn; auto. destruct ((a =? id) && (j =? i)); cbn; auto. now rewrite IH. Qed.
+  Lemma rl_inst_busy l i : inst_busy K (map rl_pinfl l) i = inst_busy K l i.
+  Proof. unfold inst_busy. induction l as [|[[[a j] k] b] l IH]; cbn; auto. now rewrite IH. Qed.
+  Lemma rl_p_total l : p_total K (rl_pstore l) = p_total K l.
+  Proof. unfold rl_pstore, rl_dict. induction l as [|[j d] l IH]; cbn [map p_total fold_right fst snd]; auto. unfold p_total in IH. now rewrite map_length, IH. Qed.
+
+  (* ... and with every step of acached_per_instance *)
+  Lemma pstep_relabel st o :
+    pstep K keqb kf valid (rl_pstate st) (rl_pop o) =
+    (rl_pstate (fst (pstep K keqb kf valid st o)), rl_res rho (snd (pstep K keqb kf valid st o))).
+  Proof.
+    destruct st as [l inf rs]. destruct o as [id i c bl b|id i|i]; cbn [pstep rl_pop rl_pstate pstore pinfl pruns].
+    - rewrite rl_p_ensure. destruct (kf c) as [k|]; [|reflexivity].
+      rewrite rl_p_dict, rl_d_find. destruct (d_find K keqb (p_dict K (p_ensure K l i) i) k); cbn [option_map]; [reflexivity|].
+      destruct (negb (valid c)); [reflexivity|].
+      destruct bl.
+      + cbn. unfold rl_pstate. cbn. now rewrite map_app.
+      + destruct b as [v|e]; cbn; unfold rl_pstate; cbn; auto. now rewrite rl_p_store.
+    - rewrite rl_pinfl_find. destruct (pinfl_find K inf id i) as [[k [v|e]]|]; cbn; unfold rl_pstate; cbn; auto.
+      + now rewrite rl_p_store, rl_pinfl_remove.
+      + now rewrite rl_pinfl_remove.
+    - rewrite rl_inst_busy. destruct (inst_busy K inf i); cbn; unfold rl_pstate; cbn; auto.
+      now rewrite rl_p_remove.
+  Qed.
+
+  Definition rl_pobs (x : res * Z * Z) : res * Z * Z := (rl_res rho (fst (fst x)), snd (fst x), snd x).
+
+  Lemma prun_relabel ops : forall st,
+    prun K keqb kf valid (rl_pstate st) (map rl_pop ops) =
+    (rl_pstate (fst (prun K keqb kf valid st ops)), map rl_pobs (snd (prun K keqb kf valid st ops))).
+  Proof.
+    induction ops as [|o ops IH]; intros st; cbn [map prun]; auto.
+    rewrite pstep_relabel. destruct (pstep K keqb kf valid st o) as [s1 r]. cbn [fst snd].
+    rewrite IH. destruct (prun K keqb kf valid s1 ops) as [s2 rs]. cbn [fst snd map].
+    unfold rl_pobs at 2. cbn [fst snd].
+    replace (p_total K (pstore (rl_pstate s1))) with (p_total K (pstore s1)) by (symmetry; apply rl_p_total).
+    replace (length (pstore (rl_pstate s1))) with (length (pstore s1)) by (cbn; unfold rl_pstore; now rewrite map_length).
+    reflexivity.
+  Qed.
+
+  Lemma inst_values_opaque ops :
+    snd (prun K keqb kf valid pinit (map rl_pop ops)) = map rl_pobs (snd (prun K keqb kf valid pinit ops)) /\
+    pruns (fst (prun K keqb kf valid pinit (map rl_pop ops))) = pruns (fst (prun K keqb kf valid pinit ops)).
+  Proof.
+    change (@pinit K) with (rl_pstate pinit). rewrite prun_relabel. cbn. auto.
+  Qed.
+End RelabelInst.
+
+(* `f(1)` three times with a body that returns payload 9001 (None in the harness): Miss, Hit, Hit *)
+Example ex_payload_hit :
+  snd (arun key key_eqb (alru_key false KmDefault sig_ab2) (bindable sig_ab2) 2 ainit
+         [ACall 0 (mkCall [1] []) false (BRet 9001); ACall 1 (mkCall [1] []) false (BRet 9001);
+          ACall 2 (mkCall [] [(0, 1)]) false (BRet 9001)]) = [(RMiss 9001, 1); (RHit 9001, 1); (RHit 9001, 1)].
+Proof. vm_compute. reflexivity. Qed.
